@@ -10,6 +10,7 @@ M = [
  ("C02", "field-13.6e", "_dlpoly_writeTABLE.py", 'u" % 14.7e" * 3', 'u" % 13.6e" * 3'),
  ("C02", "nr-mod4-config-off", "config/_tabulation_factories.py", "if cutoffs.nr % 4 != 0:", "if False and cutoffs.nr % 4 != 0:"),
  ("C17", "dlpoly-header-first", "_dlpoly_writeTABLE.py", "_writeTableHeader(meshResolution, cutoff, gridPoints, outputbuilder)", "_writeTableHeader(meshResolution, cutoff, gridPoints, out)"),
+ ("C08", "deriv-default", "_multi_range_potential_form.py", "    if rt is None:\n      return 0.0\n    return rt.deriv(r)", "    if rt is None:\n      return self.default_value + 1e-9\n    return rt.deriv(r)"),
  ("C03", "setfl-nr-minus-1", "eam_tabulation.py", None, None),
 ]
 def main():
